@@ -297,6 +297,20 @@ package resolver
 //@   assert at store dns.Question.Name#1: value == req.Question[0].Name && lastret("(*middleware/resolver.SingleflightWrapper).TimedDoChanWithRole", 1) && calls("(*github.com/miekg/dns.Msg).Copy") >= 1
 //@   possible at store dns.Question.Name#1: true
 //@   assert at call (*middleware/resolver.SingleflightWrapper).TimedDoChanWithRole#1: !owned ==> calls("(*github.com/miekg/dns.Msg).Copy") == 1
+//@   # C19 ("served only to clients inside that scope"): the key under which callers share one upstream lookup is the lookup's target followed by
+//@   # the client subnet THIS caller's query carries upstream, so callers that differ in it never share an answer an
+//@   # authority may have tailored to one of them
+//@   assert at call (*middleware/resolver.SingleflightWrapper).TimedDoChanWithRole#1: arg2 == key && key == target + "|" + lastret("middleware/resolver.forwardedSubnet")
+//@   assert at call middleware/resolver.forwardedSubnet#1: arg0 == req
+//@
+//@ # the first client-subnet option of the request's OPT, rendered with family, source length, scope and address
+//@ func forwardedSubnet
+//@   abstract
+//@   nosafety all pre
+//@   assert at return#1: result == "" && lastret("(*github.com/miekg/dns.Msg).IsEdns0") == nil
+//@   assert at return#2: result == lastret("(*github.com/miekg/dns.EDNS0_SUBNET).String") && ok
+//@   assert at call (*github.com/miekg/dns.EDNS0_SUBNET).String#1: arg0 == subnet
+//@   assert at return#3: result == "" && exhausted(1)
 //@
 //@ func (*Resolver).groupLookup$1
 //@   abstract
